@@ -10,6 +10,8 @@ from fdtdx.materials import compute_allowed_permittivities
 
 
 def mat(e):
+    if isinstance(e, list) and len(e) == 9:
+        return fdtdx.Material(permittivity=tuple(tuple(float(v) for v in e[3 * r:3 * r + 3]) for r in range(3)))
     return fdtdx.Material(permittivity=(tuple(e) if isinstance(e, list) else float(e)))
 
 
